@@ -86,12 +86,12 @@ def rule_r1(ctx: Ctx) -> None:
     for cname in ("StructureType", "UnionType"):
         c = ctx.cls(SER + "_composite." + cname)
         for mname in ("aggregate_bit_length_sets", "iterate_fields_with_offsets"):
-            m = c.methods.get(mname)
+            m = ctx.repo.lookup_method(c, mname)
             if m is None:
                 raise AnalysisError("anchor %s.%s missing" % (cname, mname))
             sites.append((c, m))
     fa = ctx.cls(SER + "_array.FixedLengthArrayType")
-    m = fa.methods.get("enumerate_elements_with_offsets")
+    m = ctx.repo.lookup_method(fa, "enumerate_elements_with_offsets")
     if m is None:
         raise AnalysisError("anchor enumerate_elements_with_offsets missing")
     sites.append((fa, m))
